@@ -215,6 +215,11 @@ func formatSelectionSetForInterface(ctx *PlanningContext, insertionPoint []strin
 		return selectionSet
 	}
 
+	// nothing but fields every service can answer (__typename, id) is selected
+	if len(urls) == 0 {
+		return selectionSet
+	}
+
 	// spread across multiple services, need to query each one
 	// we update selection set
 	// from { interface { field } }
@@ -224,6 +229,11 @@ func formatSelectionSetForInterface(ctx *PlanningContext, insertionPoint []strin
 	for _, def := range defs {
 		// remove fragments and inline fragment for specific definition
 		fieldsSelSet := selectionSetToFieldsRepresentation(selectionSet, def)
+
+		// nothing is selected for this implementation, a fragment without selections is not valid
+		if len(fieldsSelSet) == 0 {
+			continue
+		}
 
 		inlineFragment := ast.InlineFragment{
 			TypeCondition: def.Name,
